@@ -419,6 +419,15 @@ func (m *Manager) AllocateNAT(privateIP net.IP) (*Allocation, error) {
 	m.poolMu.Lock()
 	defer m.poolMu.Unlock()
 
+	// Re-check under poolMu: a concurrent AllocateNAT for the same private IP may have
+	// completed between the check above and here (allocations are only added under poolMu)
+	m.allocationMu.RLock()
+	if existing, ok := m.allocations[privKey]; ok {
+		m.allocationMu.RUnlock()
+		return existing, nil
+	}
+	m.allocationMu.RUnlock()
+
 	var selectedPool *PoolEntry
 	var poolIndex int
 	for i := range m.pool {
